@@ -97,7 +97,7 @@ func init() {
 		Level:  "exploration",
 		Rule: "E1 + depth-bounded E2: (of) every subset of the 11 boundary positions {0,1,62,63,64,65,127,128,129,191,192} × n in {absent,-5,0,1,63,64,65,128,129,193,300}: word count and exact bit set of Of, ToArray(Of(l)) = l, Of(ToArray(b)) = b up to trailing zero words, and Get/Get1 inside plus SafeGet/SafeGet1 at every probe in [-70, 64·words+70); " +
 			"(of, far) every subset of {0,63,64,4095,4096,4097,65535,65536,2^20-1,2^20} × 6 sizes with probes around every position and end; (ofmany) every sequence of ≤3 segments (positions ⊂ {0,1,63,64,65}, size in {0,1,63,64,65,130}; positions ≥ size included, so the shifted concatenation need not be ascending) whose shifted bits all fit into the word count the statement gives, against the set model and that word count; " +
-			"(dense) ToArray and Of(ToArray(b)) on every bitmap of ≤4 words over the 12-word core alphabet and ≤2 words with one wide word (dense bitmaps: all-ones words and runs of them); (ofmany, many segments) OfMany on every threshold number of segments (round numbers ±1) from 1000 to 70000; (giant, 64-bit builds) the top of the int32 position range: Of on 12 (positions, n) combinations whose last bit or size lies within 65 of MaxInt32 (bitmaps of 2^25-1 and 2^25 words), with ToArray on two of them, Get/SafeGet probes next to every bit and SafeGet at MinInt32, and OfMany / a Builder whose running offset ends 50 below MaxInt32; reference arithmetic in int64; " +
+			"(dense) ToArray, Of(ToArray(b)) and Get / Get1 / SafeGet / SafeGet1 at every position on every bitmap of ≤4 words over the 12-word core alphabet and ≤2 words with one wide word (dense bitmaps: all-ones words and runs of them), and on long dense bitmaps of every length 5..300 words and every threshold length to 1100 words × 4 patterns (position lists of up to 70400 entries); (ofmany, many segments) OfMany on every threshold number of segments (round numbers ±1) from 1000 to 70000; (giant, 64-bit builds) the top of the int32 position range: Of on 12 (positions, n) combinations whose last bit or size lies within 65 of MaxInt32 (bitmaps of 2^25-1 and 2^25 words), with ToArray on two of them, Get/SafeGet probes next to every bit and SafeGet at MinInt32, and OfMany / a Builder whose running offset ends 50 below MaxInt32; reference arithmetic in int64; " +
 			"(builder) every sequence of ≤3 operations over the 234-operation alphabet (and every sequence of 4..R operations over a 10-operation sub-alphabet) {Extend(those 192 segments, the 6 without positions in each of 4 forms: nil, non-nil, with dirty spare capacity, empty tail of a longer array), Set(pos in {0,1,63,64,65,200}, value in 0..3)} executed on a real Builder from NewBuilder(0) and NewBuilder(256) (depth ≤2 also from NewBuilder(64) and NewBuilder(130)), with a second Builder extended and set between the steps (objects must not share state): set bits, Offset, capacity for every bit, and exact equality with the reference Of for Extend-only histories with ascending positions. A case is one call / one history; non-trivial when at least one bit is set.",
 		Assumptions: []string{"positions beyond 300 and longer histories are not enumerated; non-ascending lists are outside Of's and OfMany's statement"},
 		Run:         c12Run,
@@ -654,6 +654,20 @@ func c12Run(c *mc.Ctx) {
 					c.Fail(9<<50|int64(si)<<32|n, "ToArrayDense", "ToArray/dense", c12Case{Words: append(gen.Words(nil), w...)}, p+clipS(fmt.Sprint(got)), clipS(fmt.Sprint(want)))
 					return
 				}
+				// Get / Get1 / SafeGet / SafeGet1 at every position of the dense bitmap and just outside it
+				for i := int32(-2); i < int32(64*len(w))+2; i++ {
+					inside := i >= 0 && i < int32(64*len(w))
+					var bit uint64
+					if inside {
+						bit = w[i>>6] >> uint(i&63) & 1
+					}
+					o := probe(w, i, inside)
+					if o.ps || o.pg || o.sget != bit<<uint(i&63) || o.sget1 != bit || (inside && (o.get != bit<<uint(i&63) || o.get1 != bit)) {
+						c.Fail(9<<50|int64(si)<<32|n, "GetDense", "Get/dense", c12Case{Words: append(gen.Words(nil), w...), Probe: i}, fmt.Sprintf("%+v", o), fmt.Sprintf("bit %d", bit))
+						break
+					}
+				}
+				c.Add("dense_probe_calls", int64(4*64*len(w)+8))
 				back, p2 := of(got, false, 0)
 				tw := w
 				for len(tw) > 0 && tw[len(tw)-1] == 0 {
@@ -669,6 +683,25 @@ func c12Run(c *mc.Ctx) {
 			})
 			c.Count(n, n)
 			c.Add("dense_bitmaps", n)
+		})
+		// LONG dense bitmaps: every length 5..300 words and every threshold length up to 1100 words × 4
+		// patterns (all ones; AA../55../0 cycling; one word at the end; pseudo-random): position lists of
+		// up to 70400 entries through ToArray and back through Of
+		var lens []int
+		for l := 5; l <= 300; l++ {
+			lens = append(lens, l)
+		}
+		lens = append(lens, gen.ThresholdSizes(301, 1100)...)
+		c.Expect(int64(4 * len(lens)))
+		c.Par(len(lens), func(li int) {
+			for _, pat := range []int{0, 1, 2, 3} {
+				l := lens[li]
+				if g, w := c12Judge("ToArrayLong", c12Case{N: int32(l), Probe: int32(pat)}); g != w {
+					c.Fail(13<<50|int64(l)<<8|int64(pat), "ToArrayLong", "ToArray/long-dense", c12Case{N: int32(l), Probe: int32(pat)}, g, w)
+				}
+			}
+			c.Count(4, 4)
+			c.Add("long_dense_bitmaps", 4)
 		})
 	}
 	// (ofmany, many segments) every threshold number of segments (round numbers ±1) from 1000 to 70000:
@@ -1038,6 +1071,43 @@ func c12Judge(kind string, cs c12Case) (got, want string) {
 		kind = kind[:i+5]
 	}
 	switch kind {
+	case "GetDense":
+		w, i := []uint64(cs.Words), cs.Probe
+		inside := i >= 0 && i < int32(64*len(w))
+		var bit uint64
+		if inside {
+			bit = w[i>>6] >> uint(i&63) & 1
+		}
+		o := probe(w, i, inside)
+		want := c12Probe{sget: bit << uint(i&63), sget1: bit}
+		if inside {
+			want.get, want.get1 = want.sget, bit
+		}
+		return fmt.Sprintf("%+v", o), fmt.Sprintf("%+v", want)
+	case "ToArrayLong":
+		// N words of sweep pattern Probe (props/c01.go c01SweepBitmap)
+		w := c01SweepBitmap(int(cs.N), int(cs.Probe))
+		var want []int32
+		for i := 0; i < 64*len(w); i++ {
+			if w[i>>6]>>uint(i&63)&1 == 1 {
+				want = append(want, int32(i))
+			}
+		}
+		g, p := toArray(w)
+		if p != "" || !eqI32(g, want) {
+			return p + c16DiffSummary(g, want), "equal to the reference"
+		}
+		back, p2 := of(g, false, 0)
+		for len(w) > 0 && w[len(w)-1] == 0 {
+			w = w[:len(w)-1]
+		}
+		for len(back) > 0 && back[len(back)-1] == 0 {
+			back = back[:len(back)-1]
+		}
+		if p2 != "" || !eqU64(back, w) {
+			return "Of(ToArray(b)): " + p2 + fmt.Sprintf("%d words, differs from b", len(back)), "Of(ToArray(b)) = b"
+		}
+		return "equal to the reference", "equal to the reference"
 	case "OfEmpty":
 		return c12OfEmpty(cs.EmptyForm-1, cs.HasN, cs.N)
 	case "OfManyEmpty":
